@@ -204,8 +204,10 @@ def c06_restart(victim, free, fixed=None, restart_delays=(0, 300, 5600), planted
             for sg in segs:
                 s_ = [a for a, _ in sg]
                 if s_ != sorted(set(s_)): e.fail('order', f'victim {victim}: sink saw {s_} (tk={tk}, rd={rd})', {'kind': 'order', 'level': 'S', 'victim': victim})
-        # bounded recovery: a frame reaches the sink within CONN_TIMEOUT + 3 poll intervals (+ link/connect latencies) after the restart
-        deadline = t_restart + CONN + 3 * POLL + 200
+        # bounded recovery: a frame reaches the sink within CONN_TIMEOUT + 3 poll intervals after the restart, plus the latencies of this model instance
+        # (200 ms for link delays and hand-overs, the SUB reconnect latency, one processing time of the middle filter)
+        pB = T.get('pB', 0)
+        deadline = t_restart + CONN + 3 * POLL + 200 + sd + (pB if isinstance(pB, int) else 0)
         last = segs[-1]
         fresh = [t for _, t in last if bool(t > t_restart)]
         if not fresh:
